@@ -43,7 +43,7 @@ def run(ctx):
         jobs.append(lambda c=c: ctx.tlc(SPEC, "MC_MainUtxo", cfg="MC_" + c, coverage=True, label="MC_" + c, timeout=3000,
                                         workers=4))
         jobs.append(lambda c=c: ctx.tlc(SPEC, "Gen_MainUtxo", cfg="Gen_" + c, workers=1, label="Gen_" + c, dump_trace=False,
-                                        timeout=3000, heap="8g"))
+                                        timeout=3000, heap="8g", extra_args=["-seed", str(ctx.seed)]))
     res = par(jobs)
     cases = []
     for i, c in enumerate(cfgs):
@@ -54,7 +54,8 @@ def run(ctx):
         import re
         m = re.search(r"Finished computing initial states: (\d+) distinct", mc.out)
         init = int(m.group(1)) if m else 0
-        if not got or (init and init != len(got)):
+        sampled = c == "MainUtxo_thorough"     # 3-transaction scenarios: all 2-transaction ones plus a seeded random sample
+        if not got or (init and init != len(got) and not sampled) or (sampled and len(got) < 30000):
             ctx.broken("Gen_%s emitted %d cases, MC_%s has %d initial states" % (c, len(got), c, init))
         cases += got
     seen, uniq = set(), []
@@ -78,7 +79,7 @@ def run(ctx):
         level="model_checking",
         rule="all scenarios of <= 2 (quick) / <= 3 (thorough) transactions {confirmed, mempool} x output shapes {w, wo, ow, ww} (thorough, 2 tx: + o) "
              "x input shapes {D, M, S, SD, R, Q} (thorough, 2 tx: + DS, SM, RD, SR) x spent references, x registered hash {none, bogus, every output, wrong value} "
-             "x (2 transactions) 8 failing chain calls; non-trivial = at least one transaction and a registration that can match",
+             "x (2 transactions) 8 failing chain calls; thorough replays a seeded sample of 6000 of the 3-transaction scenarios (TLC checks all of them); non-trivial = at least one transaction and a registration that can match",
         assumptions=["the Bitcoin chain fake implements bitcoin.Chain as documented (cross-checked per case)",
                      "ComputeMainUtxoHash is injective", "at most 3 transactions, 2 outputs, 2 inputs"],
         exhaustive=True)
